@@ -74,7 +74,8 @@ SysStep ==
          /\ R.kind = "temp" /\ pc = "write" /\ fs[Tmp] = "partial"
          /\ IF R.last THEN Write ELSE UNCHANGED vars
     [] R.op = "rename" ->
-         /\ R.kind = "temp" /\ R.to_kind = "final" /\ R.to = New /\ Rename
+         /\ R.kind = "temp" /\ R.to_kind = "final"
+         /\ IF R.to = New THEN Rename ELSE RenameOnto(R.to)      \* onto an input only if the content is that input's
     [] R.op = "unlink" ->
          IF R.kind = "final"
          THEN pc = "unlink" /\ R.name \in todo /\ Unlink /\ fs'[R.name] = "absent"
